@@ -80,5 +80,5 @@ EmitF == phase = "done" =>
   LET b == BigStep(Ctx) IN
   PrintT(ToJson([kind |-> "case", nodes |-> nodes, op |-> pick.op,
                  given |-> PairsOf(pick.given), overlay |-> PairsOf(pick.overlay),
-                 data |-> b.data, errs |-> b.errs, nulls |-> b.nulls, calls |-> b.calls]))
+                 cvars |-> PairsOf(Ctx.vars), data |-> b.data, errs |-> b.errs, nulls |-> b.nulls, calls |-> b.calls]))
 =============================================================================
